@@ -370,7 +370,8 @@ def nnx_ref(t, path, typ, tag):
 def _mkvar(typ, tag, val):
   import jax.numpy as jnp
   T = _types()[typ]
-  kw = {} if tag is None else dict(tag=tag)
+  # a tag built at run time: equal to the filter's string, never the same (interned) object
+  kw = {} if tag is None else dict(tag=''.join(list(tag)))
   return T(jnp.full((), float(val)), **kw)
 
 
